@@ -23,7 +23,7 @@ func tokenPreamble(n int) []sim.Op {
 }
 
 var profileC01 = []kindW{{"mocksend", 5}, {"nftsend", 2}, {"mtsend", 2}, {"flow", 6}, {"recv", 9}, {"ack", 2}, {"update", 2},
-	{"commit", 1}, {"clean", 1}, {"recvclean", 1}, {"replay", 2}, {"rules", 2}}
+	{"commit", 1}, {"clean", 1}, {"recvclean", 1}, {"replay", 2}, {"rules", 2}, {"restart", 1}}
 
 func TestC01(t *testing.T) {
 	runProp(t, "C01",
@@ -42,7 +42,7 @@ func TestC01(t *testing.T) {
 }
 
 var profileC02 = []kindW{{"mocksend", 6}, {"nftsend", 2}, {"mtsend", 2}, {"flow", 6}, {"round", 6}, {"recv", 3}, {"ack", 2}, {"update", 1},
-	{"commit", 1}, {"clean", 5}, {"recvclean", 2}, {"cleanflow", 5}, {"stale", 5}, {"replay", 8}, {"burst", 2}, {"batch", 4}, {"cleanraid", 3}}
+	{"commit", 1}, {"clean", 5}, {"recvclean", 2}, {"cleanflow", 5}, {"stale", 5}, {"replay", 8}, {"burst", 2}, {"batch", 4}, {"cleanraid", 3}, {"restart", 1}}
 
 func TestC02(t *testing.T) {
 	runProp(t, "C02",
@@ -66,7 +66,7 @@ func TestC02(t *testing.T) {
 }
 
 var profileC03 = []kindW{{"mocksend", 4}, {"nftsend", 7}, {"mtsend", 6}, {"flow", 5}, {"round", 7}, {"recv", 1}, {"ack", 9}, {"update", 1},
-	{"commit", 1}, {"clean", 1}, {"cleanflow", 1}, {"replay", 4}, {"kwack", 2}, {"rules", 1}, {"nftmint", 1}}
+	{"commit", 1}, {"clean", 1}, {"cleanflow", 1}, {"replay", 4}, {"kwack", 2}, {"rules", 1}, {"nftmint", 1}, {"restart", 1}}
 
 func TestC03(t *testing.T) {
 	runProp(t, "C03",
@@ -93,7 +93,7 @@ func TestC03(t *testing.T) {
 }
 
 var profileC09 = []kindW{{"mocksend", 8}, {"nftsend", 8}, {"mtsend", 6}, {"flow", 5}, {"nftmint", 2}, {"mtmint", 1}, {"nftxfer", 1},
-	{"update", 1}, {"commit", 1}}
+	{"update", 1}, {"commit", 1}, {"restart", 1}}
 
 func TestC09(t *testing.T) {
 	runProp(t, "C09",
@@ -121,7 +121,7 @@ func TestC09(t *testing.T) {
 }
 
 var profileC10 = []kindW{{"mocksend", 8}, {"nftsend", 1}, {"flow", 6}, {"round", 8}, {"recv", 2}, {"ack", 2}, {"update", 1},
-	{"commit", 1}, {"clean", 8}, {"recvclean", 4}, {"cleanflow", 6}, {"stale", 5}, {"replay", 4}, {"burst", 2}, {"cleanraid", 3}}
+	{"commit", 1}, {"clean", 8}, {"recvclean", 4}, {"cleanflow", 6}, {"stale", 5}, {"replay", 4}, {"burst", 2}, {"cleanraid", 3}, {"restart", 1}}
 
 func TestC10(t *testing.T) {
 	runProp(t, "C10",
